@@ -109,3 +109,18 @@ _m("C15",
    "key strings (the rule shows keys are never interpreted, for all strings at once).",
    "effect inventory + interprocedural provenance expansion + identity/taint value flow + call-graph closure",
    "exhaustive static analysis; clause (c) is complete modulo the call graph and the model table")
+
+_m("C03",
+   "(a) who-may-write a content address: over the complete effect inventory of every configuration, the only mutating effects "
+   "whose destination is Content(cache, _) are an atomic publication (NamedTempFile::persist, or symlink with link_to), "
+   "creation of its parent directories and RemoveFile; no Open{write/create/truncate/append}, fs::write, copy/reflink/hard-link "
+   "into a content path. (b) The published temp file was created with new_in({cache}/tmp) of the *same* cache as the "
+   "destination (handle and destination expand to the same entry-point parameters): publication is a same-filesystem rename. "
+   "(c) Every data write (write/write_all/flush, mapped copy_from_slice, fallocate) targets the private temp handle, a mapping of "
+   "it, or an append-only bucket. (e) close() reports success only if persist returned Ok or an existence probe of the same "
+   "destination succeeded (sync: gate-cut reachability; async: every value sent on the result channel is status-tied to persist, "
+   "to stat(same destination), or is an earlier step's result sent under is_err()).",
+   "The state of the content area at every kill instant, torn writes, kernel rename semantics, page-cache visibility of the "
+   "mapping (runtime facts); that writers cannot be used after publication is decided under C14 (e).",
+   "effect inventory with provenance expansion (who-may-write) + gate-cut reachability / result-state ties on the close paths",
+   "exhaustive static analysis (necessary conditions of crash atomicity; the crash quantifier itself is out of static reach)")
